@@ -20,6 +20,36 @@ BIG_VALUES = ["v1", "v2", "v3", "v4"]
 CALL_OPS = ("Set", "SetIfEquals", "AddIfNew", "Remove", "RemoveIfEquals", "SetSymbolic")
 
 
+def _h(n):
+    return ("refs", "heads", n)
+
+
+# "wide" universe: name lengths around the sizes at which record encodings change (a name of L bytes is
+# refs/heads/ + L-11 characters), names sharing long prefixes (prefix compression; 130 bytes: a two-byte
+# prefix length), and object ids chosen for their bytes (WideValues)
+WIDE_LENGTHS = (31, 32, 33, 47, 48, 49, 64, 255)
+WIDE_NAMES = ([HEAD, _h("m")] + [_h("x" * (L - 11)) for L in WIDE_LENGTHS]
+              + [_h("p" * 18 + s) for s in ("0", "1")]                 # 30 bytes, 29 shared
+              + [_h("p" * 29 + s) for s in ("0", "1")]                 # 41 bytes, 40 shared
+              + [_h("q" * 125 + s) for s in ("a", "b")])               # 137 bytes, 136 shared
+WIDE_VALUES = (["mk%02d" % i for i in range(18)] + ["mklead001c", "mkzeros1c", "lead1c", "tail0000", "zeros01", "ff"]
+               + ["p%04d" % i for i in range(4)])
+BULK_SIZES = (1, 15, 16, 17, 100, 1000)
+
+
+def bulk_names(n):
+    return [HEAD] + [_h("b%04d" % i) for i in range(n)]
+
+
+def namelen(n):
+    return len("/".join(n))
+
+
+def len_class(n):
+    L = namelen(n)
+    return "" if L < 32 else (" namelen=32-47" if L < 48 else " namelen=48+")
+
+
 def rows(m):
     out = []
     for n, e in m.items():
@@ -44,11 +74,11 @@ class Recorder:
         e = self.loose.get(HEAD, ABSENT)
         return e[0] == "direct" or (e[0] == "sym" and len(e[1]) > 1)
 
-    def do(self, op, n=(), old="ANY", v="", t=()):
+    def do(self, op, n=(), old="ANY", v="", t=(), items=None):
         be = self.be
-        self.pre.append((self.loose, self.packed, self.ev[-1]["_get"] if self.ev else {x: "KeyError" for x in be.names},
+        self.pre.append((self.loose, self.packed, self.ev[-1]["_get"] if self.ev else {},
                          self.prev_scan))
-        got, oserr, form = be.call(op, n, old, v, t)
+        got, oserr, form = be.call(op, n, old, v, t, items)
         if be.kind == "disk":
             sc = be.scan()
             loose, packed, _ = be.state(sc)
@@ -60,9 +90,10 @@ class Recorder:
             dirs = []
         api = be.api()
         e = {"op": op, "n": list(n), "old": old, "v": v, "t": list(t), "got": got, "oserr": bool(oserr), "form": form,
+             "items": [{"n": list(x), "v": y} for (x, y) in (items or ())],
              "loose": rows(loose), "packed": rows(packed), "dirs": [list(d) for d in dirs],
-             "get": [{"n": list(x), "r": api["get"][x]} for x in be.names],
-             "peeled": [{"n": list(x), "p": api["peeled"][x] or ""} for x in be.names],
+             "get": [{"n": list(x), "r": r} for x, r in api["get"].items()],
+             "peeled": [{"n": list(x), "p": p or ""} for x, p in api["peeled"].items()],
              "asd": [], "asdx": "", "sym": [], "symx": "",
              "git": {"on": False, "head_ok": False, "refs": [], "peeled": [], "symref": [], "head_sym": []},
              "_get": dict(api["get"]), "_api": api, "_locks": sc["locks"] if sc else []}
@@ -157,6 +188,60 @@ def gen_calls(rng, rec: Recorder, length, values):
                 rec.do("Reopen")
 
 
+def gen_wide(rng, rec: Recorder, length):
+    """Calls over the wide universe: mostly creations and overwrites with the special names and ids,
+    re-opening often (what was written must be there for a fresh reader), now and then a small batch."""
+    be = rec.be
+    names, values = be.names, WIDE_VALUES
+    for _ in range(length):
+        e = eff(rec.loose, rec.packed)
+        r = rng.random()
+        n = rng.choice(names)
+        if e[n][0] == "sym" and rng.random() < 0.8:           # stay inside the common contract
+            rec.do("Remove", n)
+            continue
+        if r < 0.35:
+            rec.do("Set", n, "ANY", rng.choice(values))
+        elif r < 0.45:
+            cur = e[n]
+            old = cur[1] if (cur[0] == "direct" and rng.random() < 0.6) else "ZERO"
+            rec.do("SetIfEquals", n, old, rng.choice(values))
+        elif r < 0.55:
+            rec.do("AddIfNew", n, "ANY", rng.choice(values))
+        elif r < 0.65:
+            rec.do("Remove", n)
+        elif r < 0.70:
+            cur = e[n]
+            rec.do("RemoveIfEquals", n, cur[1] if cur[0] == "direct" else "ZERO")
+        elif r < 0.78:
+            rec.do("SetSymbolic", n, "ANY", "", rng.choice(names))
+        elif r < 0.88 and be.kind != "disk":
+            k = rng.randint(2, 5)
+            picked = [x for x in rng.sample(names, k) if e[x][0] != "sym"]
+            if picked:
+                rec.do("BatchSet", v="wide", items=[(x, rng.choice(values)) for x in picked])
+        elif be.kind != "dict":
+            rec.do("Reopen")
+
+
+def gen_bulk(rng, rec: Recorder, size):
+    """Many refs in one table: a batch creating `size` refs, a fresh reader, single updates and deletes
+    in the middle and at the ends, a second batch overwriting every third ref."""
+    be = rec.be
+    names = [n for n in be.names if n != HEAD][:size]
+    vals = ["p%04d" % i for i in range(1200)]
+    rec.do("BatchSet", v=f"create-{size}", items=[(n, vals[i]) for i, n in enumerate(names)])
+    if be.kind != "dict":
+        rec.do("Reopen")
+    for n in {names[0], names[len(names) // 2], names[-1]}:
+        rec.do("Set", n, "ANY", vals[1100 + rng.randrange(50)])
+    rec.do("Remove", names[len(names) // 3])
+    rec.do("SetSymbolic", HEAD, "ANY", "", names[-1])
+    rec.do("BatchSet", v=f"overwrite-{size}", items=[(n, vals[1000 + (i % 100)]) for i, n in enumerate(names) if i % 3 == 0])
+    if be.kind != "dict":
+        rec.do("Reopen")
+
+
 def new_backend(kind, objs, names, scratch):
     root = os.path.join(scratch, "t-" + kind)
     if kind == "disk":
@@ -166,8 +251,17 @@ def new_backend(kind, objs, names, scratch):
     return ReftableBackend(objs, names, root)
 
 
-def to_json(tid, rec: Recorder, names, values, objs):
-    return {"tid": tid, "backend": rec.be.kind, "names": [list(n) for n in names], "values": list(values),
+def universe(name, objs_by):
+    """-> (names, values, objects, use git) of a named universe ('big', 'wide', 'bulk-<n>')."""
+    if name == "wide":
+        return WIDE_NAMES, WIDE_VALUES, objs_by["wide"], False
+    if name.startswith("bulk-"):
+        return bulk_names(int(name[5:])), ["p%04d" % i for i in range(1200)], objs_by["wide"], False
+    return BIG_NAMES, BIG_VALUES, objs_by["big"], True
+
+
+def to_json(tid, rec: Recorder, names, values, objs, uni="big"):
+    return {"tid": tid, "backend": rec.be.kind, "universe": uni, "names": [list(n) for n in names], "values": list(values),
             "peel": [[v, objs.peel[v]] for v in values],
             "ev": [{k: x for k, x in e.items() if not k.startswith("_")} for e in rec.ev]}
 
@@ -230,14 +324,41 @@ def describe(rec: Recorder, obj, step, clause, want, name):
              "call": call_str({"op": x["op"], "n": tuple(x["n"]), "old": x["old"], "v": x["v"], "t": tuple(x["t"])}),
              "want": "", "got": x["got"]} for x in rec.ev[:step]]
     hist[-1]["want"] = want
-    lab = {"op": e["op"], "n": tuple(e["n"]), "old": e["old"], "v": e["v"], "t": tuple(e["t"]), "res": want, "tgt": name}
-    robj = {"backend": be.kind, "names": obj["names"], "values": obj["values"], "calls": hist, "clause": clause}
+    lab = {"op": e["op"], "n": tuple(e["n"]), "old": e["old"], "v": e["v"], "t": tuple(e["t"]), "res": want, "tgt": name,
+           "count": len(e.get("items", ()))}
+    for x in hist:
+        if x["op"] == "BatchSet":
+            x["call"] = "batch: " + x["v"]
+    for x, ev in zip(hist, rec.ev[:step]):
+        if ev.get("items"):
+            x["items"] = ev["items"]
+    robj = {"backend": be.kind, "universe": obj.get("universe", "big"), "calls": hist, "clause": clause}
+    if len(obj["names"]) <= 20:
+        robj["names"], robj["values"] = obj["names"], obj["values"]
     post_e = eff(post_l, post_p)
     feats = state_features(post_l, post_p, e["_get"])
     site = be.site
-    if clause in ("result", "state"):
+    if clause in ("result", "state") and e["op"] == "BatchSet":
+        # what became of the batch, from the recorded arguments and the state read back
+        last = {tuple(i["n"]): i["v"] for i in e["items"]}
+        missing = sum(1 for n in last if post_e.get(n, ABSENT) == ABSENT)
+        wrong = sum(1 for n, v in last.items() if post_e.get(n, ABSENT) not in (ABSENT, ("direct", v)))
+        others = sum(1 for n in post_e if n not in last and post_e[n] != eff(pre_l, pre_p).get(n, ABSENT))
+        some = lambda k, n: "none" if k == 0 else ("all" if k == n else "some")    # noqa: E731
+        longest = max(last, key=namelen)
+        marked = any(v.startswith("mk") for v in last.values())
+        case = (f"BatchSet count={len(last)}{len_class(longest)}{' value=mk' if marked else ''} "
+                f"missing={some(missing, len(last))} wrong={some(wrong, len(last))} others-changed={some(others, max(others, 1)) if others else 'none'}")
+        sig = f"{site}.{METHOD['BatchSet'] if be.kind == 'reftable' else '__setitem__'}|{clause}|{case} got={e['got']}"
+        what = (f"a batch of {len(last)} refs[n] = v returned {e['got']}; afterwards {missing} of them are missing, {wrong} hold "
+                f"another value, {others} other refs changed")
+    elif clause in ("result", "state"):
         fs = be.fs_diagnosis(pre_scan, name) if (be.kind == "disk" and name) else "-"
         case = call_case(lab, pre_l, pre_p, fs, pre_get)
+        # (wide universe) what is special about the name and the id of this call
+        case += len_class(tuple(e["n"]))
+        if e["v"].startswith("mk"):
+            case += " value=" + ("mk-lead" if e["v"] == "mklead001c" else "mk")
         # the state the specification expects is not printed by the monitor; describe the real change
         pre_e = eff(pre_l, pre_p)
         changed = diff_desc(lab, pre_e, post_e)
